@@ -196,6 +196,10 @@ func runC02(c *core.Ctx, res *core.Result) {
 		c02Syscalls(c, res)
 		return
 	}
+	if c.Idx%8 == 3 {
+		c02Frozen(c, res)
+		return
+	}
 	crashCaseOpts(c, res, nil, nil)
 }
 
